@@ -17,6 +17,7 @@ type SQLOpts struct {
 
 	Directives        bool // gomacro:SQL / gomacro:QUERY comment directives (C16)
 	JSONHeavy         bool // at least one jsonb column (C04)
+	PayloadEmbeds     bool // stored documents may embed a struct (flattened; untagged or options-only tag) (C04)
 	NoJSON            bool
 	Executable        bool // restrict to shapes the executed CRUD property can drive (C05)
 	ForeignFileTables bool // foreign keys (and REFERENCES directives) to a table struct declared in the sibling file (not executed: that table is not created)
@@ -456,6 +457,27 @@ func (sg *sqlGen) ensurePayload() (name string, hasUnion bool) {
 					Names: []string{alias}, Exprs: []string{blk.Specs[dup].Names[0]}, Vals: []string{fmt.Sprint(dup)}, OfType: []string{en}}}})
 				ti.d.Fields = append(ti.d.Fields, &Field{Name: "Level", Type: Ref(sg.root.Path, en)})
 				sg.o.class("json:iota_enum_with_unexported_duplicate")
+			}
+		}
+		if sg.o.PayloadEmbeds && rapid.IntRange(0, 2).Draw(sg.t, "payloadEmbed") == 0 {
+			// a flattened embedded struct in the stored document: untagged, or with a tag made of options only
+			has := map[string]bool{}
+			for _, f := range ti.d.Fields {
+				has[f.Name] = true
+			}
+			if !has["Zauthor"] && !has["Zrev"] {
+				for k := range g.used(sg.root) {
+					sg.used[k] = true
+				}
+				in := sg.fresh(sg.pick("payloadEmbedName", []string{"Meta", "Audit", "Stamp"}) + "Info")
+				g.used(sg.root)[in] = true
+				sg.other.Decls = append(sg.other.Decls, &Decl{Kind: KStruct, Name: in, Fields: []*Field{{Name: "Zauthor", Type: Basic("string")}, {Name: "Zrev", Type: Basic("int")}}})
+				emb := &Field{Name: in, Type: Ref(sg.root.Path, in), Embedded: true}
+				if rapid.Bool().Draw(sg.t, "payloadEmbedOptTag") {
+					emb.Tag = `json:",omitempty"`
+				}
+				ti.d.Fields = append(ti.d.Fields, emb)
+				sg.o.class("json:embedded_struct_in_document")
 			}
 		}
 		if rapid.IntRange(0, 4).Draw(sg.t, "nestedBothWays") == 0 {
